@@ -494,15 +494,22 @@ def run(run):
 
 
 def search(run):
+    """proof obligation or correspondence broke and the run's oracle saw nothing: widen the oracle-only search on the
+    real code (bounded in time: 20 000 objects or 150 s)"""
+    import time
     before = len(run.violations)
     g = cimgen.Gen(run.rng, allow_cr=True)
+    known = common.load_known_all()
+    t0 = time.time()
     for i in range(20000):
         o = g.any()
         oracle(run, o, obj_case(o))
-        new = [v for v in run.violations[before:]
-               if not any(common.matches(f, PROP, v['sig']) for f in common.load_known_all())]
-        if new:
-            return new
+        if len(run.violations) > before:
+            new = [v for v in run.violations[before:] if not any(common.matches(f, PROP, v['sig']) for f in known)]
+            if new:
+                return new
+        if time.time() - t0 > 150:
+            break
     return []
 
 
